@@ -172,7 +172,8 @@ def _read_events(path):
                 try:
                     evs.append(json.loads(line))
                 except ValueError:
-                    pass
+                    if line.startswith('{"t":"done"'):
+                        evs.append({'t': 'baddone', 'raw': line[:300]})
     except OSError:
         pass
     return evs
@@ -223,12 +224,18 @@ def _run_range(prop, ps, binp, seed, tier, a, b, tmpdir, res, wid, verbose=False
             t = e.get('t')
             if t == 'begin':
                 last_begin = e['case']
+                phase = 'unknown'
             elif t == 'viol':
                 res.add_viol(e['key'], dict(pass_name=ps.name, case=e['case'], seed=seed, tier=tier, detail=e.get('detail')))
             elif t == 'signal':
                 phase = e.get('phase', 'unknown')
+            elif t == 'phase':
+                phase = e.get('p', 'unknown')
             elif t == 'restart':
                 restart = True
+            elif t == 'baddone':
+                res.harness_errors.append('%s/%s: unparseable done record: %s' % (prop, ps.name, e['raw']))
+                done = True
             elif t == 'done':
                 done = True
                 with res.lock:
@@ -337,6 +344,7 @@ def write_evidence(prop, tier, seed, level, res, rule, wall, assumptions, extra_
 def report(prop, res, findings):
     """print KNOWN-FINDING / VIOLATION lines, write replay files; returns (nviol, known_hit)"""
     nviol, known_hit = 0, []
+    shutil.rmtree(os.path.join(VERIF, 'replays', prop), ignore_errors=True)
     for key in sorted(res.viol):
         w = res.viol[key]
         k = findings.known(prop, key)
